@@ -2,12 +2,28 @@
 
 from itertools import combinations, product
 
+from collections import UserList, deque
+from collections.abc import Sequence
+
 from ..monitors import contracts
 from ..prop import Prop
 
 BITS = {"MONDAY": 0x02, "TUESDAY": 0x04, "WEDNESDAY": 0x08, "THURSDAY": 0x10,
         "FRIDAY": 0x20, "SATURDAY": 0x40, "SUNDAY": 0x80}
 NAMES = list(BITS)
+
+
+class Seq(Sequence):
+    """A sequence that is neither list nor tuple."""
+
+    def __init__(self, items):
+        self._items = list(items)
+
+    def __getitem__(self, i):
+        return self._items[i]
+
+    def __len__(self):
+        return len(self._items)
 
 
 def mask_of(names) -> int:
@@ -64,8 +80,8 @@ class C12(Prop):
     level = "exploration"
     technique = "exhaustive enumeration of the real encoder/decoder under runtime contracts vs an independent bit table"
     rule = ("complete enumeration: 127 non-empty subsets x 6 input forms (set, frozenset, sorted list, reversed list, "
-            "sorted tuple, shuffled tuple) + 7 single members, all 256 masks, all 399 sequences of length <= 3 as list and "
-            "tuple, 4 empty forms; every case is distinct by construction and non-trivial (judged against the bit table); "
+            "sorted tuple, shuffled tuple) + 7 single members, all 256 masks, all 399 sequences of length <= 3 as list, "
+            "tuple, deque, UserList and custom Sequence, 4 empty forms; every case is distinct by construction and non-trivial (judged against the bit table); "
             "odd masks 3..253 are unspecified and skipped; 127 aliasing probes edit a returned set and decode the same mask again")
     level_text = ("The input space of the statement is finite and is enumerated completely on every run (exhaustive: true): "
                   "all subsets in all accepted forms, all masks, all short sequences; each result is compared with an independent bit table.")
@@ -154,8 +170,23 @@ class C12(Prop):
                     rot = members[len(members) // 2:] + members[: len(members) // 2]
                     for form, arg in (("set", set(members)), ("frozenset", frozenset(members)),
                                       ("list", list(members)), ("list-reversed", list(reversed(members))),
-                                      ("tuple", tuple(members)), ("tuple-rotated", tuple(rot))):
+                                      ("tuple", tuple(members)), ("tuple-rotated", tuple(rot)),
+                                      ("deque", deque(members)), ("userlist", UserList(rot)), ("custom-sequence", Seq(members)),
+                                      ("dict-keys", dict.fromkeys(members).keys())):
                         self._encode_ok(acc, arg, names, form)
+                    # the documented parameter given by name
+                    for form, arg in (("set", set(members)), ("tuple", tuple(rot))):
+                        acc.ev()
+                        acc.distinct()
+                        try:
+                            r = self.tools.weekdays_to_hexadecimal(days=arg)
+                            self._drain(acc, f"encode keyword {form}")
+                            if not (isinstance(r, str) and len(r) == 2 and int(r, 16) == mask_of(names)):
+                                acc.violation("encode-wrong-mask", f"days={form} {sorted(names)} by keyword -> {r!r}", {"days": sorted(names), "form": "keyword"})
+                        except Exception as exc:
+                            self.enc_rec.drain()
+                            acc.violation("encode-raised:keyword", f"{type(exc).__name__}: {exc} for valid {form} {sorted(names)} passed as days=...",
+                                          {"days": sorted(names), "form": form})
             for name in NAMES:
                 self._encode_ok(acc, D[name], (name,), "single")
             acc.sample({"kind": "subset", "days": ["MONDAY", "SUNDAY"], "observed": self.tools.weekdays_to_hexadecimal({D.MONDAY, D.SUNDAY})})
@@ -184,6 +215,13 @@ class C12(Prop):
                     acc.violation("decode-accepted-invalid", f"mask {mask} accepted -> {r!r}", {"mask": mask})
                     continue
                 want = {n for n, b in BITS.items() if mask & b}
+                try:
+                    rk = self.tools.bit_summary_to_days(sum_weekdays_bit=mask)
+                    self.dec_rec.drain()
+                    if {m.name for m in rk} != want:
+                        acc.violation("decode-wrong-set", f"mask {mask} passed by keyword -> {rk!r}", {"mask": mask, "form": "keyword"})
+                except Exception as exc:
+                    acc.violation("decode-raised:keyword", f"mask {mask} passed by keyword raised {type(exc).__name__}: {exc}", {"mask": mask})
                 if not isinstance(r, (set, frozenset)) or {m.name for m in r} != want:
                     acc.violation("decode-wrong-set", f"mask {mask} -> {r!r}", {"mask": mask, "want": sorted(want)})
                     continue
@@ -218,7 +256,8 @@ class C12(Prop):
             for n in (1, 2, 3):
                 for seq in product(NAMES, repeat=n):
                     members = [D[x] for x in seq]
-                    for form, arg in (("list", list(members)), ("tuple", tuple(members))):
+                    for form, arg in (("list", list(members)), ("tuple", tuple(members)), ("deque", deque(members)),
+                                      ("userlist", UserList(members)), ("custom-sequence", Seq(members))):
                         if len(set(seq)) == len(seq):
                             self._encode_ok(acc, arg, seq, f"seq-{form}")
                         else:
